@@ -480,3 +480,132 @@ class M(Model):
                 out.append((f"agents_view differs from the sensor window ({part} features)",
                             f"agent {k} feature {i}: obs {int(view[k][i])} expected {int(want[i])}"))
         return out
+
+
+# ------------------------------------------------------------------ C09: scripted courier episodes
+# Random play practically never carries a requested shelf to a goal cell, so deliveries (reward, request
+# replacement) and long carries would stay untested.  The hook below plays real episodes in which every
+# agent follows a stateless "courier" policy (walk to a requested shelf, load it, carry it along the
+# aisles to a goal, carry it back to a free shelf location, unload), and evaluates the ordinary C09
+# monitor on every step.  Failures are ordinary history cases (env, entry, key, actions).
+SYNTHETIC_SHARDS = {"quick": 1, "thorough": 4}
+COURIER_ENTRIES = ["s1x3h3a2r1q2t500", "s1x3h3a2r1q2t40", "s2x3h8a4r1q8t500", "s1x3h2a1r1q1t7"]
+
+
+def _bfs_next(m, start, targets, blocked):
+    """first cell of a shortest 4-neighbour path start -> any target avoiding `blocked`; None if none."""
+    if start in targets:
+        return start
+    prev = {start: None}
+    frontier = [start]
+    while frontier:
+        nxt = []
+        for cell in frontier:
+            for dr, dc in DIRS:
+                n = (cell[0] + dr, cell[1] + dc)
+                if n in prev or not m._inside(*n) or (n in blocked and n not in targets):
+                    continue
+                prev[n] = cell
+                if n in targets:
+                    while prev[n] != start:
+                        n = prev[n]
+                    return n
+                nxt.append(n)
+        frontier = nxt
+    return None
+
+
+def courier_actions(m, s, r=0):
+    pos, d, carry = m._agents(s)
+    spos = m._shelves(s)
+    smap = m._shelf_map(spos)
+    queue = [int(x) for x in np.asarray(s.request_queue).tolist()]
+    cells = [tuple(p) for p in pos.tolist()]
+    acts = np.zeros(m.A, np.int64)
+    carried = {smap[cells[k]] for k in range(m.A) if carry[k] and cells[k] in smap}
+    for k in range(m.A):
+        here = cells[k]
+        others = {c for j, c in enumerate(cells) if j != k}
+        if not carry[k]:
+            wanted = [q for q in queue if 0 <= q < m.S and q not in carried]
+            if not wanted:
+                acts[k] = LEFT
+                continue
+            tgt = {tuple(spos[wanted[(k + r) % len(wanted)]].tolist())}
+            if here in tgt:
+                acts[k] = TOGGLE
+                continue
+            nxt = _bfs_next(m, here, tgt, others)
+        else:
+            sid = smap.get(here)
+            shelf_cells = set(smap) - {here}
+            if sid is not None and sid in queue:
+                tgt = set(m.goals)
+            else:
+                tgt = {(int(a), int(b)) for a, b in np.argwhere(m.shelf_loc)} - shelf_cells - others
+                if here in tgt:
+                    acts[k] = TOGGLE
+                    continue
+            nxt = _bfs_next(m, here, tgt, shelf_cells | others) if tgt else None
+        if nxt is None or nxt == here:
+            acts[k] = LEFT if (r + k) % 2 else RIGHT
+            continue
+        want_d = DIRS.index((nxt[0] - here[0], nxt[1] - here[1]))
+        turn = (want_d - int(d[k])) % 4
+        acts[k] = FORWARD if turn == 0 else (LEFT if turn == 3 else RIGHT)
+    return acts
+
+
+def synthetic_c09(ctx, item, seed, tier):
+    from vf import envs, episodes
+    from vf import modelprops as mp
+
+    shard, shards = item["shard"], item["shards"]
+    entries = COURIER_ENTRIES[:2] if tier == "quick" else COURIER_ENTRIES
+    n_keys = 6 if tier == "quick" else 24
+    steps = 120 if tier == "quick" else 300
+    for entry in entries:
+        b = envs.bundle("RobotWarehouse", entry)
+        m = M(b)
+        for i in range(n_keys):
+            if i % shards != shard:
+                continue
+            key = [int(seed) * 1000 + i, 17]
+            rec = episodes.Recorder(ctx, b, key)
+            mon = mp.C09Mon(b, ctx, m)
+            st_, ts = b.reset(envs.make_key(key))
+            hs, hts = episodes.host((st_, ts))
+            ctx.count("courier_episodes")
+            for t in range(steps):
+                a = b.to_action(courier_actions(m, hs, r=i))
+                rec.actions.append(np.asarray(a))
+                st_, ts = b.step(st_, a)
+                hn, hnt = episodes.host((st_, ts))
+                mon.on_step(rec, t, hs, hts, np.asarray(a), hn, hnt, False)
+                ctx.count("courier_steps")
+                if float(hnt.reward) > 0:
+                    ctx.count("courier_deliveries", int(round(float(hnt.reward))))
+                if int(np.asarray(hn.agents.is_carrying).sum()):
+                    ctx.count("courier_steps_carrying")
+                hs, hts = hn, hnt
+                if int(hnt.step_type) == LAST:
+                    ctx.count("courier_end_collision" if int(hn.step_count) < m.T else "courier_end_time_limit")
+                    break
+
+
+# ------------------------------------------------------------------------------ C10 extra configs
+def _rw(sr, sc, ch, a, sens, q):
+    def make():
+        from jumanji.environments import RobotWarehouse
+        from jumanji.environments.routing.robot_warehouse.generator import RandomGenerator
+
+        return RobotWarehouse(generator=RandomGenerator(shelf_rows=sr, shelf_columns=sc, column_height=ch, num_agents=a,
+                                                        sensor_range=sens, request_queue_size=q), time_limit=20)
+    return make
+
+
+EXTRA_INSTANCE_CONFIGS = {
+    "x_s3x5h1a6r2q4": _rw(3, 5, 1, 6, 2, 4),          # many clusters of height 1, five columns
+    "x_s2x1h2a1r1q1": _rw(2, 1, 2, 1, 1, 1),          # a single shelf column (only the top cluster survives)
+    "x_s1x3h1a20r1q4_dense": _rw(1, 3, 1, 20, 1, 4),  # half of the 40 cells hold an agent, every shelf requested
+}
